@@ -32,6 +32,9 @@ FolderConfigs ==
     \* non-positive rates
     <<File(1, M2, M2, 10, "xml", {<<"USD", "zero">>})>>,
     <<File(1, M2, M2, 10, "xml", {<<"EUR", "neg">>, <<"USD", "pos">>})>>,
+    \* a currency listed twice in one file (one row per country), the later row non-positive: still a non-positive rate
+    <<File(1, M2, M2, 10, "xml", {<<"USD", "dupzero">>})>>,
+    <<File(1, M1, M1, 10, "xml", {<<"EUR", "dupneg">>, <<"USD", "pos">>})>>,
     \* a file that cannot be read as a rates file at all (truncated XML / bytes that are not UTF-8): bad, the run fails --
     \* the rate the user supplied is never silently replaced by the bundled one
     <<File(1, M1, M1, 10, "xml", {<<"USD", "garbled">>})>>,
